@@ -15,7 +15,8 @@ META = dict(
          "(what Size() reports), tried => a success time, pending collisions wait for an occupied slot, a reload preserves addresses, slots "
          "and stored statistics, Select hands out a known address of the right table and network. Binding (code -> spec): a seeded driver "
          "runs the real AddrMan (deterministic, CheckAddrman before and after every call, mock time) over universes of 16 addresses of all "
-         "networks constructed so that tried-slot and new-slot collisions, evictions back to the new table, deletions by overwrite, "
+         "networks - incl. 6to4 / Teredo / NAT64 / SIIT addresses, which GetNetwork() counts as IPv6 and GetNetClass() as IPv4, sharing tried slots "
+         "with ordinary addresses and evicted in both directions - constructed so that tried-slot and new-slot collisions, evictions back to the new table, deletions by overwrite, "
          "refcount 8 and a full collision set really occur; after every call it records Size() by table and network, all slots and "
          "statistics, pending collisions and FindAddressEntry of every address, and TLC validates each recorded call as a transition of "
          "the specification with all invariants evaluated on every state. An abort inside a call (the consistency check) is a violation.",
@@ -266,10 +267,6 @@ def run(ctx):
             # an invariant is false on a recorded state: the error trace ends in that state, l = the next line to read
             import re
             txt = open(res.log_path).read()
-            if os.environ.get("VERIF_C37_KEEP"):
-                import shutil
-                os.makedirs(os.environ["VERIF_C37_KEEP"], exist_ok=True)
-                shutil.copy(res.log_path, os.environ["VERIF_C37_KEEP"]); shutil.copy(p, os.environ["VERIF_C37_KEEP"])
             ls = re.findall(r"(?m)^/\\ l = (\d+)", txt)
             acts = re.findall(r"(?m)^State \d+: <(\w+) ", txt)
             if ls:
@@ -280,6 +277,9 @@ def run(ctx):
                         if 0 <= alt < len(lines) and "T" + lines[alt]["e"] == acts[-1]:
                             matched = alt
                             break
+            else:
+                # no error trace in the log: the search depth counts the initial state and the violating one
+                matched = max(0, matched - 1)
         return i, p, first, lines, acc, matched, res, devs
     with concurrent.futures.ThreadPoolExecutor(max_workers=nbins) as ex:
         results = list(ex.map(validate, enumerate(groups)))
